@@ -567,6 +567,11 @@ per_scan_setup(j_compress_ptr cinfo)
     long nominal = (long)cinfo->restart_in_rows * (long)cinfo->MCUs_per_row;
     cinfo->restart_interval = (unsigned int)MIN(nominal, 65535L);
   }
+  /* A restart interval that the application set directly must fit in the
+   * 16-bit field of the DRI marker as well.
+   */
+  if (cinfo->restart_interval > 65535)
+    cinfo->restart_interval = 65535;
 }
 
 
